@@ -367,6 +367,9 @@ def _lp_nodes(S):
         'I3': lambda n: [S.int(n + 'id'), '*', S.int(n + 'a'), S.int(n + 'b'), S.int(n + 'c')],
         'U2': lambda n: [S.int(n + 'id'), ':', S.int(n + 'a'), S.int(n + 'b')],
         'Ic': lambda n: [S.int(n + 'id'), '*', CellRef(4), S.int(n + 'b'), S.int(n + 'c')],
+        # an intersection that holds a nested union (or a nested intersection) is NOT pure: its operator part would be lost
+        'Iu': lambda n: [S.int(n + 'id'), '*', S.int(n + 'a'), S.int(n + 'b'), [S.int(n + 'uid'), ':', S.int(n + 'c'), S.int(n + 'd')]],
+        'Ii': lambda n: [S.int(n + 'id'), '*', S.int(n + 'a'), [S.int(n + 'iid'), '*', S.int(n + 'c'), S.int(n + 'd')]],
         'C': lambda n: CellRef(3),
     }
 
@@ -382,7 +385,7 @@ def _pure_len(node):
     return len(node)
 
 
-@contract(TF.largestPureIntersectionNode, props=['C01'], name='TreeFunctions.largestPureIntersectionNode')
+@contract(TF.largestPureIntersectionNode, props=['C01', 'C08', 'C11'], name='TreeFunctions.largestPureIntersectionNode')
 class _Largest:
     """Returns None iff no operand is a surface or an intersection of surfaces only; otherwise the index of such an
     operand of maximal size (first one among equals).  Exhaustive over the operand kinds for up to 3 operands."""
@@ -598,7 +601,8 @@ class _Phases:
 
     def call(inline):
         T = (1.0, 0.0, 0.0, 1.0, 0.0, 0.0, 0.0, 1.0, 0.0, 0.0, 0.0, 1.0)
-        g = {k: OpaqueNode(tag=f'g{k}', patently_empty=(k == 6)) for k in (1, 2, 3, 4, 5, 6, 20, 30, 99)}
+        g = {k: OpaqueNode(tag=f'g{k}', patently_empty=(k == 6)) for k in (1, 2, 3, 4, 5, 6, 20, 30, 99, 8)}
+        T2 = (0.0, 2.0, 0.0, 0.0, 1.0, 0.0, -1.0, 0.0, 0.0, 0.0, 0.0, 1.0)
         cells = {
             1: CellMCNP('1', '-1.0', g[1], 1.0, 0, None, (), None, [], []),                  # plain
             2: CellMCNP('1', '-1.0', g[2], 1.0, 0, None, (), None, [T], []),                 # with TRCL
@@ -609,6 +613,7 @@ class _Phases:
             20: CellMCNP('2', '-2.0', g[20], 1.0, 2, None, (), None, [], []),                # in universe 2
             30: CellMCNP('3', '-3.0', g[30], 1.0, 2, LatticeSpecStub(), (), 1, [], []),      # lattice cell in universe 2
             99: CellMCNP('0', None, g[99], 0.0, 0, None, (), None, [], []),                  # outside world, highest number
+            8: CellMCNP('0', None, g[8], 1.0, 0, 2, T2, None, [T], []),                      # TRCL and FILL with a transformation
         }
         _PHASE_STATE['cells'] = cells
         _PHASE_STATE['skipped'] = [4, 5, 99]
@@ -627,12 +632,14 @@ class _Phases:
                                   last['develop_lattice'] < first['pot_fill'] and last['pot_fill'] < first['inline_cells']
                                   and last['inline_cells'] < first['pot_convert'])
         trcl = [x for x in c if x['callee'] == 'apply_trcl']
+        # (cell 8 has a TRCL *and* a FILL with its own transformation: the latter only replaces the TRCL for what
+        # fills the cell -- pot_fill -- the cell's own surfaces are still moved by the TRCL)
         yield 'every-trcl-applied-to-the-geometry-of-its-own-cell', (
-            all(any(x['args'][1] is g[k] for x in trcl) for k in (2,)) and
-            all((len(x['args'][0]) == 1) == (x['args'][1] is g[2]) for x in trcl) and
-            sum(1 for x in trcl if x['args'][0]) == 1)
+            all(any(x['args'][1] is g[k] and len(x['args'][0]) == 1 for x in trcl) for k in (2, 8)) and
+            all((len(x['args'][0]) == 1) == (x['args'][1] is g[2] or x['args'][1] is g[8]) for x in trcl) and
+            sum(1 for x in trcl if x['args'][0]) == 2)
         compl = [x['args'][0] for x in c if x['callee'] == 'pot_complement']
-        yield 'complements-eliminated-in-every-cell', len(compl) == 9 and all(
+        yield 'complements-eliminated-in-every-cell', len(compl) == 10 and all(
             any((a is g[k]) or (isinstance(a, Opaque) and a.facts.get('of') is g[k]) for a in compl) for k in g)
         yield 'complements-see-the-moved-geometry', any(isinstance(a, Opaque) and a.facts.get('stage') == 'trcl' and
                                                         a.facts.get('of') is g[2] for a in compl)
@@ -641,7 +648,8 @@ class _Phases:
         fills = [x for x in c if x['callee'] == 'pot_fill']
         # (developing the zero-importance filled cell 4 as well is allowed: its pieces are never converted, see below)
         yield 'live-level-0-filled-cells-developed', (3 in [x['args'][0] for x in fills] and
-                                                      set(x['args'][0] for x in fills) <= {3, 4})
+                                                      8 in [x['args'][0] for x in fills] and
+                                                      set(x['args'][0] for x in fills) <= {3, 4, 8})
         yield 'fill-sees-the-developed-lattice', all(30 not in x['args'][4] and any(
             isinstance(v.geometry, Opaque) and v.geometry.facts.get('stage') == 'element' for v in x['args'][4].values())
             for x in fills)
@@ -656,7 +664,7 @@ class _Phases:
             return geo
         origins = [origin(x) for x in conv_cells]
         yield 'exactly-the-live-level-0-unfilled-cells-converted', (
-            len(conv_cells) == 4 and all(any(o is g[k] for o in origins) for k in (1, 2, 6, 3)) and
+            len(conv_cells) == 5 and all(any(o is g[k] for o in origins) for k in (1, 2, 6, 3, 8)) and
             all(x.importance != 0 and x.universe == 0 and x.fillid is None for x in conv_cells))
         yield 'same-matching-and-helper-planes-for-every-cell', all(x['args'][1] is coll.matching and x['args'][2] == union_ids
                                                                       for x in conv)
@@ -672,7 +680,7 @@ class _Phases:
         yield 'skipped-cells-reported', list(skipped) == [4, 5, 99]
         # numbers generated for pieces and auxiliary volumes never collide with a cell number of the deck, converted or
         # not (writeT4Geometry leaves out every volume that carries the number of a zero-importance cell)
-        original = {1, 2, 3, 4, 5, 6, 20, 30, 99}
+        original = {1, 2, 3, 4, 5, 6, 8, 20, 30, 99}
         generated = (set(mcnp_dict) | set(dic_vol)) - original
         yield 'generated-numbers-exceed-every-cell-number', bool(generated) and min(generated) > 99
 
